@@ -54,10 +54,11 @@ type CleanupPlan struct {
 }
 
 type IterPlan struct {
-	Behav    int           `json:"b,omitempty"`
-	SleepNs  int64         `json:"sleep,omitempty"` // body duration before the behaviour takes place
-	After    int64         `json:"after,omitempty"` // extra sleep after a non-stopping behaviour
-	Cleanups []CleanupPlan `json:"cleanups,omitempty"`
+	Behav        int           `json:"b,omitempty"`
+	SleepNs      int64         `json:"sleep,omitempty"`       // body duration before the behaviour takes place
+	After        int64         `json:"after,omitempty"`       // extra sleep after a non-stopping behaviour
+	LateHelperNs int64         `json:"late_helper,omitempty"` // a goroutine started by the body calls Errorf this long after the body returned
+	Cleanups     []CleanupPlan `json:"cleanups,omitempty"`
 	// CleanupsLate: register the cleanups after the sleep instead of at the start
 	CleanupsLate bool `json:"late,omitempty"`
 	// InTimeStage: the behaviour happens inside t.Time("stage", ...)
@@ -109,6 +110,7 @@ type H1Cfg struct {
 	SameScenario   bool              `json:"same_scenario,omitempty"` // ... all of the same scenario name
 	Run2Plain      bool              `json:"run2_plain,omitempty"`    // runs after the first leave every limit at its default (flags omitted)
 	C01LateCancel  bool              `json:"c01_late_cancel,omitempty"`
+	LateHelper     bool              `json:"late_helper_profile,omitempty"`
 	Flags1         map[string]string `json:"flags_first_run,omitempty"` // trigger flags of the first run only (later runs use Flags): nothing of them may survive
 	FilePathKind   string            `json:"file_path_kind,omitempty"`  // file mode: "dir" = the path names a directory, "missing" = nothing there
 	MemProfile     bool              `json:"memprofile,omitempty"`      // driver f1: pass --memprofile
@@ -612,6 +614,22 @@ func (h h1) Gen(prop, tier string, r *simrt.Rng) (any, simrt.Config) {
 		if r.Intn(3) == 0 {
 			c.MaxIterations = 1
 		}
+	case "C07":
+		if r.Intn(8) == 0 {
+			// a body leaves a helper goroutine behind that reports an error on the handle while the worker is idle
+			// (one worker, one request per 100 ms tick, bodies of 10 ms, the helper fires 20 ms after its body): the
+			// iteration that started it has passed, and the next one on that worker starts clean
+			c.Mode, c.Flags = "constant", map[string]string{"rate": "1/100ms", "distribution": "none"}
+			c.Concurrency, c.MaxIterations, c.Runs = 1, 0, 1
+			c.CancelAtNs, c.CancelAtStep, c.CancelAtSite = 0, 0, ""
+			c.MaxDurationNs = int64(2+r.Intn(6))*100*ms + 50*ms + 7
+			c.Prog = ScenarioProg{Iter: []IterPlan{{SleepNs: 10*ms + 3, LateHelperNs: 20*ms + 11}, {SleepNs: 5*ms + 1}}}
+			if r.Intn(2) == 0 {
+				c.Prog.Iter = c.Prog.Iter[:1]
+			}
+			c.SlowOutputNs = 0
+			c.LateHelper = true
+		}
 	case "C09", "C02":
 		c.Mode = "constant"
 		genTrigger(c, r, "constant", true)
@@ -699,6 +717,9 @@ func (h h1) Gen(prop, tier string, r *simrt.Rng) (any, simrt.Config) {
 	}
 	sc := genSimCfg(r, faults)
 	sc.MaxSimNs += c.StartOffsetNs
+	if c.LateHelper {
+		sc.StallPermille = 0
+	}
 	if c.Prog.Rendezvous > 0 && sc.StallMaxMs > 30 {
 		sc.StallMaxMs = 30
 	}
